@@ -3,6 +3,7 @@ package scen
 import (
 	"bytes"
 	"fmt"
+	"github.com/IrineSistiana/mosproxy/internal/dnsmsg"
 	"net/netip"
 	"sort"
 	"strings"
@@ -511,6 +512,21 @@ func checkContent(h *History, vs []*opView) {
 				}
 			}
 			continue
+		}
+		// what an independent decoder accepts, the proxy's own decoder and the
+		// parser behind Go's resolver have to accept too (the latter only for
+		// content it takes at all, see the codec arm)
+		if v.q != nil && op.Raw == nil {
+			if m2, err := dnsmsg.UnpackMsg(d.raw); err != nil {
+				h.S.Fail("C02", "self-undecodable", "%s: the proxy's own decoder rejects the response (%v): %d bytes %x", name, err, len(d.raw), trunc(d.raw, 64))
+			} else {
+				dnsmsg.ReleaseMsg(m2)
+			}
+			if xnetParse(refdns.Pack(m, refdns.PackOpts{})) == nil {
+				if err := xnetParse(d.raw); err != nil {
+					h.S.Fail("C02", "encoded-undecodable", "%s: golang.org/x/net/dns/dnsmessage rejects the response (%v): %d bytes %x", name, err, len(d.raw), trunc(d.raw, 64))
+				}
+			}
 		}
 		if v.q != nil && op.Raw == nil && (!v.supported || v.outcome.Kind != "forward") {
 			// never forwarded: whatever generated answer it carries was made for someone else
